@@ -1157,7 +1157,11 @@ func DriveF(run *common.Run, b FBudget) {
 	h := sha256.Sum256([]byte(fmt.Sprintf("copyh/C02/%d", run.Seed)))
 	rootRand := common.NewRand(binary.LittleEndian.Uint64(h[:8]))
 	watchdog := 20 * time.Second
+	stop := false // a confirmed hang costs 80 s of wall clock: one is enough for the verdict
 	one := func(c *FCase) int {
+		if stop {
+			return 0
+		}
 		id := run.NewID()
 		if js, err := json.Marshal(c); err == nil {
 			os.WriteFile(currentCasePath(run.Dir), js, 0o644)
@@ -1166,7 +1170,7 @@ func DriveF(run *common.Run, b FBudget) {
 		if res.SetupErr != nil {
 			panic(fmt.Errorf("harness setup failed (not a property failure): %w", res.SetupErr))
 		}
-		if res.First.Hang {
+		if res.First.Hang || (res.Rerun != nil && res.Rerun.Hang) {
 			// the machine is loaded: a hang must reproduce with a longer watchdog before it is reported
 			res2 := ExecuteF(c, 60*time.Second)
 			if res2.SetupErr == nil && !res2.First.Hang && (res2.Rerun == nil || !res2.Rerun.Hang) {
@@ -1205,6 +1209,7 @@ func DriveF(run *common.Run, b FBudget) {
 		first := res.First
 		if first.Hang {
 			fail("hang", "the call did not return within the watchdog (20 s, reproduced with 60 s): "+desc+" trace="+strings.Join(first.Toks, ","))
+			stop = true
 			return fails
 		}
 		if first.Stuck {
@@ -1247,6 +1252,7 @@ func DriveF(run *common.Run, b FBudget) {
 		if rr != nil {
 			if rr.Hang {
 				fail("hang", "the fault-free rerun did not return within the watchdog: "+desc)
+				stop = true
 				return fails
 			}
 			if rr.Stuck {
